@@ -22,6 +22,8 @@ pub trait Hooks: Sync {
     /// block the calling OS thread until wake(key) or absolute virtual deadline; true = woken
     fn block(&self, key: usize, deadline: Option<u64>) -> bool;
     fn wake(&self, key: usize);
+    /// forget a pending wake(key) that nobody consumed
+    fn clear(&self, key: usize);
     fn spawn(&self, name: String, f: Box<dyn FnOnce() + Send + 'static>);
     /// a key that identify the calling OS thread
     fn thread_key(&self) -> usize;
